@@ -1,0 +1,1 @@
+//! Hooks owned by property C03 (feature `verif-hooks`).
